@@ -1395,6 +1395,12 @@ class SyncObj(object):
         if serializeState != SERIALIZER_STATE.NOT_SERIALIZING:
             return
 
+        if self.__conf.journalFile is not None and self.__conf.fullDumpFile is None:
+            # Without a dump file the journal is the only durable copy of the state: entries trimmed from it
+            # could not be replayed after a restart (the snapshot would only exist in memory).
+            self.__forceLogCompaction = False
+            return
+
         if len(self.__raftLog) <= self.__conf.logCompactionMinEntries and \
                                 currTime - self.__lastSerializedTime <= self.__conf.logCompactionMinTime and \
                 not self.__forceLogCompaction:
